@@ -717,6 +717,74 @@ class Gen:
         self.ops.append(last)
         self.pool.append(shp)
 
+    def g_redeclared_twin(self):
+        """Same-shaped subtrees over equal-but-different leaves: take a relation derived from one leaf by a short line
+        of calls, declare a second leaf under the same name / engine / columns with other rows, repeat the same calls on
+        it, combine the two results in one tree (chain) and evaluate: anything keyed on relation *equality* mixes
+        the two up."""
+        from .shrink import APPENDING
+
+        r = self.rng
+        producer = {}
+        n = 0
+        for oi, o in enumerate(self.ops):
+            if o["k"] in APPENDING:
+                producer[n] = oi
+                n += 1
+        if n != len(self.pool):
+            return
+        line_kinds = ("calc", "proj", "sel", "dedup", "sort", "slice", "xfer", "mat", "mark", "custom")
+        cands = []
+        for i in range(len(self.pool)):
+            path = []
+            j = i
+            ok = True
+            while True:
+                o = self.ops[producer[j]]
+                if o["k"] == "leaf":
+                    ok = not o.get("special")
+                    break
+                if o["k"] not in line_kinds or not isinstance(o.get("t"), int) or o["t"] >= j or len(path) >= 4:
+                    ok = False
+                    break
+                path.append(o)
+                j = o["t"]
+            if ok and path and not self.pool[i].pending:
+                cands.append((i, j, path[::-1]))
+        if not cands:
+            return
+        i, leaf_pool, path = cands[-1] if r.random() < 0.6 else r.choice(cands)
+        leaf_op = self.ops[producer[leaf_pool]]
+        lid = sum(1 for o in self.ops[: producer[leaf_pool]] if o["k"] == "leaf")
+        cols = list(leaf_op["cols"])
+        rows = [[r.randint(-2, 3) for _ in cols] for _ in range(r.choice([1, 2, 3]))]
+        if "u" in cols or "v" in cols:
+            return            # (keep the documented key -> non-key dependency out of this macro)
+        new = {"k": "leaf", "eng": leaf_op["eng"], "cols": cols, "rows": rows, "redeclare": lid}
+        if leaf_op["eng"] != "sql":
+            new["payload"] = r.choice(self.leaf_payloads)
+        self.ops.append(new)
+        self.pool.append(self.pool[leaf_pool].copy(leaves={len(self.pool)}))
+        cur = len(self.pool) - 1
+        walk = leaf_pool
+        for o in path:
+            o2 = {k: v for k, v in o.items() if k != "shared"}
+            o2["t"] = cur
+            if o2["k"] == "mat" and o2.get("name") is not None:
+                self.nmat += 1          # (a materialization name identifies one stored result: never shared)
+                o2["name"] = f"m{self.nmat}"
+            self.ops.append(o2)
+            # shadow of the original step, re-targeted
+            src = next(k for k in range(len(self.pool)) if producer.get(k) is not None and self.ops[producer[k]] is o)
+            self.pool.append(self.pool[src].copy())
+            cur = len(self.pool) - 1
+        l, rr = (i, cur) if r.random() < 0.5 else (cur, i)
+        self.ops.append({"k": "chain", "l": l, "r": rr})
+        self.pool.append(self.pool[i].copy(pending=False, compound=True))
+        self.ops.append({"k": r.choice(["run", "run", "process"]), "t": len(self.pool) - 1})
+        if self.ops[-1]["k"] == "process":
+            self.pool.append(self.pool[-1].copy())
+
     def g_xfer(self):
         i = self.pick()
         if i is None:
